@@ -27,7 +27,8 @@ RULE = (
     "programs = recording callable (unsafe / alters_data method, function, static and class method, callable object, "
     "class; markers held in the instance dict, on the class, inherited, as a property, in __slots__ or served by __getattr__; "
     "callables flagged alters_data / unsafe_callable only after a first safe use; C-implemented builtin functions and "
-    "bound methods rejected by name by the overriding environment (effect on the data observed); "
+    "bound methods rejected by name by the overriding environment (effect on the data observed); bound methods the "
+    "overriding environment rejects because of their instance (__self__ marked) or by a block list of bound methods; "
     "name-based rejection by an overridden is_safe_callable; safe controls; reached by name, attribute, "
     "subscript, attr filter, map(attribute), container element, nested object) x call path (direct, set/with alias, "
     "macro positional/keyword/default/varargs/kwargs argument, enclosing scope of a macro, call-block target with and "
@@ -67,6 +68,11 @@ def _setup():
             name = getattr(obj, "__name__", "")
             if name.startswith("delete") or name in g.BUILTIN_REJECTED_NAMES:
                 return False
+            # policies that look at the bound method itself: no method of a marked instance, and a block list
+            if getattr(getattr(obj, "__self__", None), "vt_model", False):
+                return False
+            if any(obj == b for b in getattr(self, "vt_blocklist", ())):
+                return False
             return super().is_safe_callable(obj)
 
     _st.update(jinja2=jinja2, SecurityError=SecurityError, SandboxedEnvironment=SandboxedEnvironment, Override=Override, unsafe=unsafe)
@@ -104,10 +110,16 @@ def make_world():
             return rec("delete_x", a, k)
 
         def ok(self, *a, **k):
-            return rec("ok", a, k)
+            return rec(self._prefix + "ok" if self._prefix.startswith("mdl") else "ok", a, k)
 
         def ping(self, *a, **k):
             return rec("ping", a, k)
+
+        def save(self, *a, **k):
+            return rec(self._prefix + "save", a, k)
+
+        def listed(self, *a, **k):
+            return rec("listed", a, k)
 
         def late(self, *a, **k):
             type(self).late.alters_data = True  # safe when first used, flagged from then on
@@ -259,7 +271,14 @@ def make_world():
     bl, bd, bs = [0], {"a": 1}, "abc"
     late_obj = LateObj("late_obj")
     extra.update({"late_fn": late_fn, "late_obj": late_obj, "bl": bl, "bd": bd, "bs": bs, "getcwd": os.getcwd, "blen": len})
+    mdl = Box("mdl.")
+    mdl.vt_model = True
+    mdl.child = Box("mdl.child.")
+    mdl.child.vt_model = True
+    mdl_ok = mdl.ok
+    extra.update({"mdl": mdl, "cd2": {"m": mdl.save}})
     table.update(extra)
+    table.update({"mdl.ok": mdl.ok, "mdl.save": mdl.save, "mdl.child.save": mdl.child.save, "listed": u.listed})
     table.update({"late": u.late, "bl.append": bl.append, "bl.extend": bl.extend, "bd.clear": bd.clear, "bd.update": bd.update,
                   "bd.pop": bd.pop, "bs.upper": bs.upper})
     ctx = {
@@ -271,7 +290,7 @@ def make_world():
 
 
 def blocked(marking, envkind):
-    return marking in ("unsafe", "alters", "late") or (marking in ("delete", "builtin") and envkind == "override")
+    return marking in ("unsafe", "alters", "late") or (marking in ("delete", "builtin", "model") and envkind == "override")
 
 
 # --- structural oracle: every call of a template value goes through environment.call ------------
@@ -314,6 +333,7 @@ def check_case(case):
             raise core.Violation("generated code calls a template value without environment.call: %s (template %s)%s" % (bad[0], tname, where))
 
     ctx, log, table = make_world()
+    env.vt_blocklist = [ctx["u"].listed]
     for cname, pyname in (case.get("ctxbind") or {}).items():
         ctx[cname] = table[pyname]  # the recorder is a context variable with an engine-special name
     for prior in case.get("prior") or ():
@@ -392,7 +412,7 @@ def run_shard(spec, ctx):
 def floors(total, tier):
     lab = total.labels
     for k in ("default_sync", "default_async", "override_sync", "override_async", "mark_unsafe", "mark_alters", "mark_delete",
-              "mark_safe", "mark_late", "mark_builtin", "unreached", "levels_2", "prelude_prior_render", "prelude_method_before"):
+              "mark_safe", "mark_late", "mark_builtin", "mark_model", "unreached", "levels_2", "prelude_prior_render", "prelude_method_before"):
         if lab.get(k, 0) < 200:
             return "class %s has only %d cases" % (k, lab.get(k, 0))
     missing = [p for p in g.CALL_PATHS if lab.get("path_" + p, 0) < 20]
